@@ -134,8 +134,8 @@ class ApiInterp:
     def op_init(self, *a):
         return None
 
-    def _send(self, frame, cuts=()):
-        self.rig.console.feed(self.tr, frame, cuts=cuts)
+    def _send(self, frame, cuts=(), label="push"):
+        self.rig.console.feed(self.tr, frame, cuts=cuts, label=label)
         self.frames += 1
 
     def op_ac_status(self, recs):
@@ -190,7 +190,7 @@ class ApiInterp:
             self.entity_frames[("zone", n)] = self.entity_frames.get(("zone", n), 0) + 1
         if len(recs) < len(self.zones):
             self.nt.add("partial-frame")
-        self._send(c.w.zone_status(recs))
+        self._send(c.w.zone_status(recs), label="push:zone_status")
         return {"kind": "zone", "changed": changed}
 
     def op_timer_status(self, timers):
